@@ -11,6 +11,12 @@ TABLE = {"Rxn_solution_map": "Get_totals", "Rxn_reaction_map": "Get_elementList"
          "Rxn_surface_map": "Get_totals", "Rxn_gas_phase_map": "Get_totals", "Rxn_ss_assemblage_map": "Get_totals", "Rxn_kinetics_map": "Get_totals"}
 
 
+# reactant map -> the call that (re)computes that element list from the definition; the stored list of a reactant that never took part in a
+# calculation is empty or stale (cxxSSassemblage::totals is filled only by totalize), so reading it without this call drops its elements
+REFRESH = {"Rxn_reaction_map": "reaction_calc", "Rxn_pp_assemblage_map": "totalize", "Rxn_exchange_map": "totalize", "Rxn_surface_map": "totalize",
+           "Rxn_gas_phase_map": "totalize", "Rxn_ss_assemblage_map": "totalize", "Rxn_kinetics_map": "calc_dummy_kinetic_reaction_tally"}
+
+
 def unit_list_components(twin=False):
     fn = A.find_function(PH, Q)
     r = U.new_unit("C14.list_components.every_defined_reactant_contributes", PH, Q, fn, kind="structural")
@@ -35,6 +41,12 @@ def unit_list_components(twin=False):
         coef = text_of(PH, a["inner"][2])
         r.add("%s.adds_%s()" % (k, table[k]), DISCHARGED if acc == [table[k]] and recv == "accumulator" else FAILED, "syntactic", 0, "accumulator=%s accessor=%r" % (recv, acc))
         r.add("%s.positive_coefficient" % k, DISCHARGED if coef in ("1.0", "1", "1.") else FAILED, "syntactic", 0, coef)
+        if k in REFRESH:
+            calls = [(strip(y["inner"][0]).get("name"), y.get("range", {}).get("begin", {}).get("offset", -1)) for y in A.walk(lp["inner"][-1])
+                     if y.get("kind") in ("CXXMemberCallExpr", "CallExpr") and y.get("inner")]
+            a_off = a.get("range", {}).get("begin", {}).get("offset", -1)
+            before = [n for n, off in calls if n == REFRESH[k] and 0 <= off < a_off]
+            r.add("%s.element_list_recomputed_from_the_definition_before_it_is_read(%s)" % (k, REFRESH[k]), DISCHARGED if before else FAILED, "syntactic", 0, repr(calls)[:200])
         inc = text_of(PH, lp["inner"][3]) if lp["inner"][3] else ""
         # iteration starts at begin(): the declaration just before the loop
         r.add("%s.iterates_every_entry" % k, DISCHARGED if inc in ("cit++", "it++", "++cit", "++it") else FAILED, "syntactic", 0, inc)
